@@ -8,7 +8,7 @@
    cross-radix and big-accumulator routines).  The magnitude hypotheses are the backend's exact-product domain:
    S bounds the 1-norm of every secret polynomial, E the error, M the plaintext digits. *)
 From PV Require Import Base.MachineInt Model.Znx Model.Limbs Model.Flat Model.DftAbs Model.C08Oracle Model.EncModel
-  Proofs.EncValue Proofs.EncLists Proofs.EncSampler Proofs.C01Sk Proofs.C01Glwe.
+  Proofs.EncValue Proofs.EncLists Proofs.EncSampler Proofs.C01Sk Proofs.C01Glwe Proofs.C01Lwe.
 Open Scope Z_scope.
 
 (* decrypt(encrypt m) = m + e * 2^-(limb+1)b + rho on the torus, |rho| <= one unit of the decrypted plaintext's last limb,
@@ -62,6 +62,29 @@ Theorem C01_message_position :
               = lval P b size (coef pt k) + nthZ e k * wt P b (target_limb nk b) + q * 2 ^ P.
 Proof. exact sk_message_position. Qed.
 Print Assumptions C01_message_position.
+
+(* LWE: `a` = the mask words of each limb, `normalize_assign_value_ok` = C08's statement about vec_znx_normalize_assign;
+   D bounds the inner products <a_j, s> (|s|_1 * 2^(b-1) by C01_lwe_dot_bound) *)
+Theorem C01_lwe_roundtrip :
+  forall (b pb R : Z) (size psize : nat) (nk D E M : Z),
+  normalize_value_ok (fun rb ab => normalize 64 rb ab 0) (2 ^ 62) R ->
+  normalize_assign_value_ok R ->
+  1 <= b <= R -> 1 <= pb <= R ->
+  forall (pt s : list Z) (a : list (list Z)) (e : Z) (body d : list Z),
+  (forall j, Z.abs (lwe_dot (nth j a []) s) <= D) -> Z.abs e <= E -> bnd M pt ->
+  D + E + M <= 2 ^ 62 -> D + 2 ^ (b - 1) <= 2 ^ 62 ->
+  lwe_enc_body b size nk pt s a e = Some body ->
+  lwe_dec b pb size psize s a body = Some d ->
+  length d = psize /\
+  forall P, zn size * b <= P -> zn psize * pb <= P -> 1 <= P ->
+    tor_abs P (val_scaled P pb d - val_scaled P b (firstn size pt) - e * wt P b (target_limb nk b)) <= 2 ^ (P - zn psize * pb).
+Proof. exact lwe_roundtrip_value. Qed.
+Print Assumptions C01_lwe_roundtrip.
+
+Theorem C01_lwe_dot_bound : forall B : Z, 0 <= B -> forall a s : list Z, Forall (fun x => Z.abs x <= B) a ->
+  Z.abs (lwe_dot a s) <= norm1 s * B.
+Proof. exact lwe_dot_bound. Qed.
+Print Assumptions C01_lwe_dot_bound.
 
 (* `prods_at` really is the product of the clear secret with the mask, limb by limb: (s_i * a_i)_k *)
 Theorem C01_phase_products : forall (s : poly) (n size : nat) (c : ccol) (k : nat), (k < n)%nat ->
